@@ -1,8 +1,8 @@
 SPECIFICATION Spec
 CONSTANTS
-  Keys = {"1", "1.0", "1px", "qa", "a", "sa", "red", "#f00"}
+  Keys = {"1", "1.0", "qa", "a", "red", "#f00"}
   Keys3 = {"1", "qa", "#f00"}
-  MaxOps = 4
+  MaxOps = 3
 VIEW ViewM
 INVARIANTS InvKeysUnique InvLaws InvRun
 CHECK_DEADLOCK FALSE
